@@ -337,8 +337,13 @@ class Layout:
             if fragment and fragment[0] == j:
                 ref += "#" + fragment[1]
             (ext if f["rel"] == "extends" else imp).append(ref)
-        out = ["<schema%s>" % (" extends=%s" % quoteattr(" ".join(ext))
-                               if ext else "")]
+        # (the top schema's key type runs a complete load of another
+        # configuration, from another directory, for every key line: see
+        # run_shard and zcverif_dt/fam.py)
+        out = ["<schema%s%s>" % (" extends=%s" % quoteattr(" ".join(ext))
+                                 if ext else "",
+                                 " keytype='zcverif_dt.fam.kt_reenter'"
+                                 if i == 0 else "")]
         for ref in imp:
             out.append("  <import src=%s/>" % quoteattr(ref))
         out.append("  <sectiontype name='t%d'><key name='x' default='s%d'/>"
@@ -480,9 +485,14 @@ class Monitor:
         mon = self
         orig = self.orig
 
+        import zcverif_dt.fam as fam
+
         def createResource(self, file, url):
-            mon.events.append(url)
-            mon.res.hook("createResource")
+            # (resources of the loads that the key type nests inside the
+            # load under observation are not that load's resources)
+            if not fam._DEPTH[0]:
+                mon.events.append(url)
+                mon.res.hook("createResource")
             return orig(self, file, url)
 
         self.cls.createResource = createResource
@@ -1196,10 +1206,37 @@ def run_loader_reuse(ctx, ZConfig, rng, n):
     shutil.rmtree(root, ignore_errors=True)
 
 
+def install_inner_load(ctx, ZConfig):
+    """What the top schema's key type does on every key line: load a
+    little configuration with an %include of its own from a directory of
+    its own."""
+    import io
+    import zcverif_dt.fam as fam
+    d = os.path.join(os.path.realpath(ctx.tmp), "inner dir")
+    os.makedirs(os.path.join(d, "sub"), exist_ok=True)
+    _write(os.path.join(d, "top.conf"),
+           "k one\n%include sub/inc.conf\nk three\n")
+    _write(os.path.join(d, "sub", "inc.conf"), "k two\n%include inc2.conf\n")
+    _write(os.path.join(d, "sub", "inc2.conf"), "k two-b\n")
+    schema = ZConfig.loadSchemaFile(io.StringIO(
+        "<schema><multikey name='k' attribute='k'/></schema>"))
+
+    def inner():
+        cfg, _ = ZConfig.loadConfig(schema, os.path.join(d, "top.conf"))
+        INNER[0] += 1
+        if list(cfg.k) != ["one", "two", "two-b", "three"]:
+            raise RuntimeError("inner load gave %r" % (list(cfg.k),))
+    fam.ALSO[0] = inner
+
+
+INNER = [0]
+
+
 def run_shard(ctx):
     import ZConfig
     res = ctx.res
     cwd0 = os.getcwd()
+    install_inner_load(ctx, ZConfig)
     try:
         rng = ctx.rng("layouts")
         for n in range(LAYOUTS[ctx.tier]):
@@ -1209,6 +1246,27 @@ def run_shard(ctx):
                 run_loader_reuse(ctx, ZConfig, rng, n)
         H = Helpers(ZConfig)
         bound = BOUND[ctx.tier]
+        # base URLs that are built, used once and dropped, over and over:
+        # a later base string sits where an earlier one sat
+        import gc
+        for i in range(3000):
+            base = "file:///dir%d/sub%d/x.conf" % (i % 7, i % 3)
+            rel = ("common.conf", "../base.xml", "inc/f.conf")[i % 3]
+            e = refurl.exp_urljoin(base, rel)
+            obs = _call(H.url.urljoin, base, rel)
+            res.evaluations += 1
+            res.count("urljoin_on_short_lived_bases")
+            if not (obs[0] == "ok" and refurl.conforms(e, obs[1])):
+                res.violate("helper-urljoin",
+                            {"op": "helper", "s": rel, "base": base},
+                            list(e), _jsonable(list(obs)),
+                            detail="urljoin(%r, %r) after %d other bases "
+                            "came and went" % (base, rel, i),
+                            vsig="urljoin-churn")
+                break
+            del base
+            if i % 50 == 0:
+                gc.collect()
         for s in enum_strings(ctx, bound):
             check_helper(ctx, H, s)
         for s in enum_file_strings(ctx, ctx.tier):
@@ -1231,6 +1289,9 @@ def run_shard(ctx):
         H.flush(res)
     finally:
         os.chdir(cwd0)
+        import zcverif_dt.fam as fam
+        fam.ALSO[0] = None
+        res.hook("loads_nested_in_a_key_type", INNER[0])
     res.info["bounds"] = {
         "helper_alphabet": ALPHABET, "helper_max_len": bound,
         "file_prefixed_tail_max_len": FILE_TAIL[ctx.tier],
